@@ -25,7 +25,7 @@ Requirements for each change:
 - The two changes should use different mechanisms / different functions where possible.
 
 How to work:
-- Go toolchain: run every go command as: env GOFLAGS=-mod=mod GOPROXY=off GOSUMDB=off go ...   (from inside {wt}, or inside {wt}/addons/processors/<name> for the addon modules, which are separate Go modules).
+- Go toolchain: first run `export PATH=/root/go/pkg/mod/golang.org/toolchain@v0.0.1-go1.25.2.linux-amd64/bin:$PATH GOTOOLCHAIN=local GOFLAGS=-mod=mod GOPROXY=off GOSUMDB=off` in every shell call (environment does not persist between calls), then plain `go ...` works offline (from inside {wt}, or inside {wt}/addons/processors/<name> for the addon modules, which are separate Go modules).
 - Read the relevant source files first. Then make change 1, and check: `go build ./...` succeeds and the existing tests of every package you touched or that depends closely on it pass, e.g. `go test -vet=off -count=1 ./pkg/... ./cmd/... ./internal/...` (the full suite takes ~5 minutes; run at least the packages affected, and preferably everything once at the end).
 - Write the demonstration test, confirm it FAILS with the change applied and PASSES on the unchanged tree (use `git stash` / `git stash pop` or `git diff > p; git checkout -- .; ...; git apply p`).
 - Save, for change N in (1,2), under {wt}/SEED/N/ :
